@@ -34,7 +34,14 @@ def check_fetch(facts):
     ip = I.make_interp()
     del ip.primitives[I.k_fetch]
     cpu = I.fresh_cpu()
+    if "fetch_fault" in I.fi:
+        fs_ = list(cpu.fields)
+        fs_[I.fi["fetch_fault"]] = Enum(models.NONE, [])
+        from interp import Agg
+        cpu = Agg(fs_)
     outs = ip.run_all(I.k_fetch, [Ref(isamod.CPU_ROOT, ())], {isamod.CPU_ROOT: cpu})
+    if ip.unknown_callees:
+        raise RuntimeError("fetch: unmodelled callees %r" % ip.unknown_callees)
     findings = []
     ob = [0, 0]
 
@@ -57,8 +64,19 @@ def check_fetch(facts):
             continue
         if o.kind != "return":
             continue
-        nret += 1
         st = o.state
+        if "prim-failed" in st.tags:
+            # a fetch from unmapped memory must leave a trace that run() turns into an error
+            ok = "fetch_fault" in I.fi
+            if ok:
+                ff = st.mem[isamod.CPU_ROOT].fields[I.fi["fetch_fault"]]
+                ok = isinstance(ff, Enum) and ff.variant == models.SOME
+            count(ok)
+            if not ok:
+                findings.append({"props": ["C15", "C13"], "key": "fetch|fault-not-recorded", "form": "fetch", "aspect": "fault-not-recorded",
+                                 "msg": "a failing instruction fetch neither panics nor records a fault: execution would continue silently", "witness": None, "detail": {}})
+            continue
+        nret += 1
         reads = [e for e in st.eff if e[0] == "memread"]
         count(len(reads) == 2)
         if len(reads) != 2:
